@@ -207,7 +207,16 @@ fn check_violation(_ctx: &Ctx, case: &VCase, probe: &mut Probe) -> Check {
         }
         DKind::InstanceOp => {
             let owner = pre.warps[&v.w].root_node;
-            v.prog.instrs.push(Instr::OpenPortal { slot_on_edge: false, owner, child: 3, child_root: 0, ty: 0 });
+            // half of the cases: a portal to an instance required to exist already (an existing
+            // child of this state when there is one, so that nothing else refuses the op)
+            if case.violator % 2 == 1 {
+                let existing = pre.warps.iter().find(|(w, _)| **w != v.w && **w != 0).map(|(w, st)| (*w, st.root_node));
+                let (child, child_root) = existing.unwrap_or((3, 0));
+                v.prog.instrs.push(Instr::OpenPortalExisting { slot_on_edge: false, owner, child, child_root });
+                probe.class("instance-op:portal-to-existing-instance");
+            } else {
+                v.prog.instrs.push(Instr::OpenPortal { slot_on_edge: false, owner, child: 3, child_root: 0, ty: 0 });
+            }
             v.prog.fp.a_write.insert(ASlot::Node(v.w, owner));
             Expect::InstanceOp
         }
